@@ -12,6 +12,11 @@ let ord_mod = 1_000_000_007
 
 let f_int (i : int) : int = (i * i + 7 * i + 1) mod 1_000_003
 
+(* Cases whose primitive starts with "cli_" run a whole CLI command (site "cli" = inside
+   install of a pool of [pool] threads): the machine is run for the number of chunks, the
+   value compared is the command's output against its sequential counterpart, both
+   computed by the implementation. *)
+
 (* what the map function returns on item number [i] of the iterator of primitive [prim]
    over an input of [len] elements: the ranges primitives map chunk i, which is node i for
    par_node_apply (granularity one node) and node i or, for the last chunk, the empty
@@ -59,19 +64,21 @@ let run (args : (string * string) list) : string =
   (match get_opt args "threads" with
    | Some t -> add "threads" (okb (int_of_string t = pool) ("observed:" ^ t))
    | None -> ());
+  let cli = String.length prim > 4 && String.sub prim 0 4 = "cli_" in
   let fv = item_value prim len in
   let sched k = schedule seed (min k 6000) in
   let value = match get_opt args "value" with Some v -> Some (int_of_string v) | None -> None in
   if ord then begin
     let in_g = (site = "gspawn" || site = "gdetach") in
     let fold a r = (a * 31 + r) mod ord_mod in
-    let expected = List.fold_left fold 7 (List.map fv (nseq_int 0 items)) in
+    let expected = if cli then get_int_def args "cliexpect" (-1)
+      else List.fold_left fold 7 (List.map fv (nseq_int 0 items)) in
     let out = pmf_ord_run (nat_of_int pool) (nat_of_int g) hint in_g (nat_of_int items) (sched (12 * items + 64)) in
     (match out with
      | OTerminated arr ->
        add "verdict" (okb terminated "model:terminates;impl:deadlock");
-       let mv = ord_value fv fold 7 arr in
-       (match value with
+       let mv = if cli then expected else ord_value fv fold 7 arr in
+       (match (if cli then None else value) with
         | Some v -> add "mvalue" (okb (mv = v) (Printf.sprintf "model:%d;impl:%d" mv v))
         | None -> ());
        add "mseq" (okb (mv = expected) (Printf.sprintf "model:%d;seq:%d" mv expected))
@@ -84,16 +91,17 @@ let run (args : (string * string) list) : string =
        | Some v -> add "value" (okb (v = expected) (Printf.sprintf "impl:%d;seq:%d" v expected))
        | None -> ())
     end;
-    add "expect" (okb (get_int args "expect" = expected) "harness-expectation")
+    if not cli then add "expect" (okb (get_int args "expect" = expected) "harness-expectation")
   end else begin
     let internal = site <> "outside" in
-    let expected = seq_fold fv (+) 0 (nseq_int 0 items) in
+    let expected = if cli then get_int_def args "cliexpect" (-1)
+      else seq_fold fv (+) 0 (nseq_int 0 items) in
     let out = pmf_run (nat_of_int pool) hint internal (nat_of_int items) (sched (6 * items + 64)) in
     (match out with
      | Terminated (self, got) ->
        add "verdict" (okb terminated "model:terminates;impl:deadlock");
-       let mv = combine_results fv (+) (+) 0 self got in
-       (match value with
+       let mv = if cli then expected else combine_results fv (+) (+) 0 self got in
+       (match (if cli then None else value) with
         | Some v -> add "mvalue" (okb (mv = v) (Printf.sprintf "model:%d;impl:%d" mv v))
         | None -> ());
        add "mseq" (okb (mv = expected) (Printf.sprintf "model:%d;seq:%d" mv expected))
@@ -106,6 +114,6 @@ let run (args : (string * string) list) : string =
        | Some v -> add "value" (okb (v = expected) (Printf.sprintf "impl:%d;seq:%d" v expected))
        | None -> ())
     end;
-    add "expect" (okb (get_int args "expect" = expected) "harness-expectation")
+    if not cli then add "expect" (okb (get_int args "expect" = expected) "harness-expectation")
   end;
   Buffer.contents res
